@@ -97,14 +97,14 @@ def _run(ctx, rep):
     for meth in ('word', 'dword', 'qword', 'vec'):
         if meth not in defaults: continue
         I = new_interp(f, abstract=())
-        sink = OuterSink(); I.st.roots.append(sink)
+        sink = OuterSink(byte_only=True); I.st.roots.append(sink)
         if meth == 'vec':
             arg = RefV(Cell(SeqV('u8', [('raw', ('a', 'v'), ('len', ('a', 'v')))], name='v'))); want = [('raw', ('a', 'v'), ('len', ('a', 'v')))]
         else:
             arg, w = X[meth]; want = [('int', arg, w)]
         run_fn(I, defaults[meth], [RefV(Cell(sink), True), arg]); rep.analysed.add(defaults[meth])
         # the default may only call byte/vec on self
-        ok = not I.tops and norm_segs(sink.segs) == want and set(sink.calls) <= {'byte', 'vec'}
+        ok = not I.tops and norm_segs(sink.segs) == want and set(sink.calls) <= set(SINK_METHODS)
         rep.ob('sink-agreement', 'default AmlSink::' + meth, ok, 'default %s delivers %s through %s; specified: the little-endian bytes in order' % (meth, show_segs(sink.segs), sorted(set(sink.calls))),
                detail={'delivered': show_segs(norm_segs(sink.segs)), 'via': sorted(set(sink.calls))})
     # (b) in-crate sinks: each override appends exactly the bytes given, in order
@@ -133,8 +133,9 @@ def _run(ctx, rep):
                 ok = not I.tops and norm_segs(got) == want
                 rep.ob('sink-agreement', subj, ok, '%s stores %s for %s' % (s, show_segs(got), show_segs(want)), detail={'appended': show_segs(got)})
             elif s == 'Checksum':
+                from evalr import canon_bytes
                 got = sv.fields['value']; exp = wrap(add(('a', 'self.value'), S_of(want)), 256)
-                ok = not I.tops and is_term(got) and equal(got, exp)[0]
+                ok = not I.tops and is_term(got) and equal(canon_bytes(got), canon_bytes(exp))[0]
                 rep.ob('sink-agreement', subj, ok, 'Checksum accumulates %s, specified %s' % (show(got) if is_term(got) else got, show(exp)))
             elif s == 'sdt::Sdt':
                 if meth == 'byte':
